@@ -1164,3 +1164,44 @@ def gen_bounds_double(rng, N):
         out.append({"op": "bounds", "n": m, "edges": gen.present_edges(rng, E, split=False), "names": gen.gen_names(rng, m),
                     "_kind": f"double{n}", "with_gon": False, "timeout": 60})
     return out
+
+
+def gen_json_str(rng, N):
+    """string literals for the decoder model: the encoder's text of names of every style, and
+    variants of it (other escapes for the same character, upper-case hex, `\/`, damaged escapes,
+    raw control characters, missing or doubled quotes); lone surrogates are not generated (Python
+    keeps them, Lean's `Char` cannot hold them)"""
+    import json as _json
+    out = []
+    pool = ["", "a", "a\"b", "back\\slash", "tab\tin", "nl\nin", "\x00\x1f\x7f", "é", "日本", "𝒳y", "a𝒳", "\u2028", "/", "q\\\"uote", "[1, 2]", "{", "}"]
+    for _ in range(N):
+        if rng.random() < 0.5:
+            name = rng.choice(pool)
+        else:
+            name = "".join(rng.choice(["a", "Z", "0", " ", "\"", "\\", "/", "\b", "\f", "\n", "\r", "\t", "\x01", "\x7f", "é", "ß", "中", "𝒳", "😀", ","]) for _k in range(rng.randint(0, 6)))
+        text = _json.dumps(name)
+        r = rng.random()
+        if r < 0.5:
+            pass
+        elif r < 0.6:
+            text = _json.dumps(name, ensure_ascii=False)
+        elif r < 0.7:
+            text = text.replace("\\u00", "\\u00".upper().replace("U", "u")).replace("e9", "E9").replace("/", "\\/")
+        elif r < 0.8 and len(text) > 2:
+            i = rng.randrange(1, len(text) - 1)
+            text = text[:i] + rng.choice(["\\", "\"", "\\u12", "\\x", "\\u00zz", "\n", "\x01", "\\ud83d", "\\/", "\\u0041"]) + text[i:]
+        elif r < 0.9:
+            text = rng.choice([text[:-1], text[1:], text + "\"", "'" + text[1:-1] + "'", text + "x"])     # (white space around the literal is json.loads' business, not the scanner's)
+        else:
+            text = rng.choice(["\"\\u0041\\u00e9\\u00E9\"", "\"\\ud83d\\ude00\"", "\"\\/\"", "\"\\b\\f\\n\\r\\t\"", "\"\\u0000\"", "\"\\u12\"", "\"\\uD83D\\uDE00x\""])
+        if any("\ud800" <= ch <= "\udfff" for ch in text + name):
+            continue
+        # texts whose decoding would contain a lone surrogate are out of the model's reach
+        try:
+            v = _json.loads(text)
+            if isinstance(v, str) and any("\ud800" <= ch <= "\udfff" for ch in v):
+                continue
+        except Exception:
+            pass
+        out.append({"op": "json_str", "text": text, "name": name, "_kind": "json_str"})
+    return out
